@@ -129,7 +129,11 @@ bool PyTreeSpec::IsPrefix(const PyTreeSpec &other, const bool &strict) const {
                     EXPECT_EQ(reordered_other_offsets.front(),
                               b->num_nodes,
                               "PyTreeSpec traversal out of range.");
-                    auto original_b = other.m_traversal.crbegin() + (b - other_traversal.crbegin());
+                    // NOTE: take a snapshot of the current subtree of `b` in `other_traversal`
+                    // rather than reading from `other.m_traversal`: an enclosing dictionary may
+                    // have already moved this subtree to a different offset.
+                    const std::vector<Node> snapshot{b, b + b->num_nodes};
+                    const auto original_b = snapshot.cbegin();
                     for (const auto &[i, j] : reordered_index_to_index) {
                         std::copy(original_b + other_offsets[j + 1],
                                   original_b + other_offsets[j],
